@@ -83,7 +83,9 @@ class ExprMixin:
 
     def card(self, v, st):
         from .state import key_card
-        return z3.Select(st.H(key_card()), v.z)
+        c = z3.Select(st.H(key_card()), v.z)
+        st.assume(c >= 0)          # a size is never negative, in any heap
+        return c
 
     def text_len(self, z):
         return z3.Function('tlen', TextS, I)(z)
@@ -199,7 +201,7 @@ class ExprMixin:
 
     # ------------------------------------------------------------------ main dispatcher
     def ev(self, e, st):
-        if self.c.names and isinstance(e, (ast.Call, ast.Attribute, ast.Subscript)):
+        if self.c.names and isinstance(e, (ast.Call, ast.Attribute, ast.Subscript, ast.BinOp)):
             # whole-expression resolution declared by the contract (module constants, external calls with awkward syntax)
             r = self.c.names.get('expr:' + ast.unparse(e))
             if r is not None:
